@@ -45,7 +45,7 @@ add("C10", "exploration", [
 ])
 
 add("C01", "exploration", [
-    {"name": "c01-enum", "bin": "c01", "pkg": ZZ + "c01", "run": "^TestVerifC01Enum$",
+    {"name": "c01-enum", "bin": "c01", "pkg": ZZ + "c01", "run": "^TestVerifC01(Enum|Shared)$",
      "shards": {"quick": 6, "thorough": 16}, "timeout": {"quick": 600, "thorough": 3000}},
     {"name": "c01-random", "bin": "c01", "pkg": ZZ + "c01", "run": "^TestVerifC01Random$",
      "shards": {"quick": 10, "thorough": 16}, "checks": {"quick": 300, "thorough": 15000},
@@ -101,7 +101,7 @@ add("C18", "exploration", [
 ])
 
 add("C08", "exploration", [
-    {"name": "c08-compile", "bin": "exec", "pkg": "./exec", "run": "^TestVerifC08Compile$",
+    {"name": "c08-compile", "bin": "exec", "pkg": "./exec", "run": "^TestVerifC08(Compile|Shared)$",
      "shards": {"quick": 8, "thorough": 16}, "checks": {"quick": 500, "thorough": 15000},
      "timeout": {"quick": 600, "thorough": 3000}},
     {"name": "c08-cross", "bin": "exec", "pkg": "./exec", "run": "^TestVerifC08CrossProcess$",
